@@ -357,6 +357,9 @@ class World:
                     arr["imag"][k, l] = 1
             with h5py.File(self.cmr / f"vol{fid:03d}.mat", "w") as h:
                 h.create_dataset("kspace_full", data=arr)
+        os.symlink(self.main, self.dir / "mainlink", target_is_directory=True)
+        (self.lists / "s0.lst").write_text("vol003.h5\n./vol003.h5\n../main/vol003.h5\nvol005.h5\n./vol005.h5\n")
+        self.list_files.append(("s0.lst", [3, 3, 3003, 5, 5]))
         self.cmr_list_files = []
         for j in range(4):
             members = rng.sample(sorted(self.cmr_shape) + [MISSING], rng.randint(0, 4))
@@ -391,7 +394,28 @@ def _cc_id(ks: np.ndarray) -> int:
     return int(round(float(vals[0].real)))
 
 
-def _gen_dataset_case(rng: pyrandom.Random, W: World):
+def _spelling(W: World, main: pathlib.Path, fid: int, rng: pyrandom.Random, allow_other_dir: bool):
+    """one way of writing the name of file `fid` of directory `main` -> (object for filenames_filter, protocol code,
+    normalised id, Path it denotes).  Normalised id = 1000 * class + fid where the class says which `pathlib.Path` object the
+    spelling denotes (0: main/name, 1: relative to the working directory, 2: through a symlinked directory, 3: with a `..`
+    component, 4: the file of the same name in another directory); code = 10000 * form + normalised id, where two entries
+    have the same form iff they are equal *as given* (all Path objects of a class are equal; strings are equal only when
+    identical)."""
+    name = f"vol{fid:03d}.h5"
+    classes = [0, 0, 0, 1, 2, 3] + ([4] if allow_other_dir else [])
+    c = rng.choice(classes) if fid != MISSING and main == W.main else rng.choice([0, 0, 3])
+    base = {0: str(main), 1: os.path.relpath(main), 2: str(W.dir / "mainlink"), 3: str(main / ".." / main.name),
+            4: str(W.extra)}[c]
+    strings = [f"{base}/{name}", f"{base}//{name}", f"{base}/./{name}", f"./{base}/{name}" if c == 1 else f"{base}/{name}/"]
+    form = rng.choice([0, 0, 1, 2, 3, 4])
+    obj = pathlib.Path(rng.choice(strings)) if form == 0 else strings[form - 1]
+    if form == 4 and strings[3] == strings[0]:
+        form = 1
+    norm = 1000 * c + fid
+    return obj, 10000 * form + norm, norm, pathlib.Path(strings[0])
+
+
+def _gen_dataset_case(rng: pyrandom.Random, W: World, spellings: bool = False):
     """-> dict(kwargs for the real class, cls name, protocol groups, bucket)"""
     cls = rng.choice(["h5", "h5", "fastmri", "calgary"])
     calg = cls == "calgary"
@@ -403,14 +427,25 @@ def _gen_dataset_case(rng: pyrandom.Random, W: World):
     kw: dict = {}
     root = main
     flt: list[int] = []
+    flt_codes: list[int] | None = None
+    alias: dict[int, pathlib.Path] = {}
     lists: list[list[int]] = []
     root_given = 1
     if mode in (1, 3):
         pool_ = ids_all + [MISSING]
         flt = rng.sample(pool_, rng.choice([0, 1, 2, 3, 3, 4, 5]))
-        if flt and rng.random() < 0.12:
+        if flt and rng.random() < (0.5 if spellings else 0.12):
             flt.insert(rng.randrange(len(flt) + 1), rng.choice(flt))          # a repeated name
-        kw["filenames_filter"] = [main / f"vol{f:03d}.h5" for f in flt]
+        if spellings and rng.random() < 0.6:
+            # the entries as given: str / Path, redundant separators, `./`, relative, symlinked directory, `..`, another
+            # directory with the same file names — mixed within one filter
+            sp = [_spelling(W, main, f, rng, cls == "h5") for f in flt]
+            kw["filenames_filter"] = [o for o, _, _, _ in sp]
+            flt_codes = [c for _, c, _, _ in sp]
+            alias = {nid: pth for _, _, nid, pth in sp}
+            flt = [nid for _, _, nid, _ in sp]
+        else:
+            kw["filenames_filter"] = [main / f"vol{f:03d}.h5" for f in flt]
     if mode in (2, 3):
         if calg:
             mode = 1 if mode == 3 else 0
@@ -424,10 +459,15 @@ def _gen_dataset_case(rng: pyrandom.Random, W: World):
     if mode == 0 and not calg and rng.random() < 0.7:
         root = rng.choice(W.subs)
     listing = [_name_id(p) for p in root.glob("*.h5")]
+    for l in lists:                                   # `..` spellings inside .lst files denote other Path objects
+        for nid in l:
+            if nid >= 1000:
+                alias[nid] = main / ".." / main.name / f"vol{nid % 1000:03d}.h5"
+    alias_ids = sorted(a for a in alias if a >= 1000)
     has_regex = int(rng.random() < 0.35)
     regex_ids: list[int] = []
     if has_regex:
-        cand = sorted(set(flt if mode in (1, 3) else [f for l in lists for f in l] if mode == 2 else listing))
+        cand = sorted({f % 1000 for f in (flt if mode in (1, 3) else [f for l in lists for f in l] if mode == 2 else listing)})
         if cand and rng.random() < 0.85:
             want = rng.sample(cand, rng.randint(1, len(cand)))
         else:
@@ -436,6 +476,7 @@ def _gen_dataset_case(rng: pyrandom.Random, W: World):
         kw["regex_filter"] = pat
         import re
         regex_ids = [f for f in ids_all + [MISSING] if re.match(pat, str(root / f"vol{f:03d}.h5"))]
+        regex_ids += [a for a in alias_ids if re.match(pat, str(pathlib.Path(alias[a])))]
     ctx_arg = rng.choice([0, 0, 1, 2])
     sl, fgrp, tag = gen_filter(rng) if rng.random() < 0.5 else (None, [0], "nofilter")
     crop = int(calg and rng.random() < 0.7)
@@ -455,20 +496,25 @@ def _gen_dataset_case(rng: pyrandom.Random, W: World):
         kw.update(data_root=root, kspace_context=ctx_arg, slice_data=sl)      # both are swallowed by **kwargs
     else:
         kw.update(data_root=root, crop_outer_slices=bool(crop), kspace_context=ctx_arg)
-    pool_ids = ids_all + [MISSING]
+    pool_ids = ids_all + [MISSING] + alias_ids
+    for a in alias_ids:
+        nmap[a] = W.nx[a % 1000] if a // 1000 == 4 else nmap[a % 1000]
     bound = sum(max(nmap[f], 0) for f in pool_ids) * (2 if (flt and len(set(flt)) < len(flt)) or mode == 2 else 1)
     bound = min(bound, 60)
     idxs = list(range(-bound - 1, bound + 1))
     if len(idxs) > 40:
         idxs = rng.sample(idxs, 40) + [0, -1]
     hdr = [{"h5": 0, "fastmri": 1, "calgary": 2}[cls], crop, ctx_arg, mode, root_given, has_regex, has_extra]
-    groups = [hdr, fgrp, pool_ids, [nmap[f] for f in pool_ids], listing, flt, regex_ids,
-              [0 if calg else W.nx.get(f, 0) for f in pool_ids], idxs] + lists
+    groups = [hdr, fgrp, pool_ids, [nmap[f] for f in pool_ids], listing, flt_codes if flt_codes is not None else flt, regex_ids,
+              [0 if calg else W.nx.get(f % 1000, 0) for f in pool_ids], idxs] + lists
+    idmap = {str(pathlib.Path(pth)): nid for nid, pth in alias.items()}
     eff_ctx = ctx_arg if cls == "h5" else 0
     bucket = (f"dataset/{cls}/{['listing', 'filter', 'lists', 'filter+lists'][mode]}"
               f"{'/regex' if has_regex else ''}{'/extra' if has_extra else ''}/ctx{eff_ctx}")
+    if flt_codes is not None:
+        bucket += "/spellings" + ("-repeated" if len(set(flt)) < len(flt) else "")
     return {"cls": cls, "kw": kw, "groups": groups, "idxs": idxs, "xkey": xkey, "ctx": eff_ctx, "bucket": bucket,
-            "nontrivial": True}
+            "nontrivial": True, "idmap": idmap}
 
 
 def _build_cls(cls: str, kw: dict):
@@ -485,7 +531,12 @@ def impl_dataset(case: dict):
         except (ValueError, NotImplementedError) as e:
             return "err " + err_name(e)
         vi = list(ds.volume_indices.items())
-        groups = [[_name_id(f) for f, _ in ds.data], [s for _, s in ds.data], [_name_id(f) for f, _ in vi],
+        idmap = case.get("idmap", {})
+
+        def pid(f):
+            return idmap.get(str(f), _name_id(f))
+
+        groups = [[pid(f) for f, _ in ds.data], [s for _, s in ds.data], [pid(f) for f, _ in vi],
                   [r.start for _, r in vi], [r.stop for _, r in vi]]
         c = case["ctx"]
         for i in case["idxs"]:
@@ -494,7 +545,7 @@ def impl_dataset(case: dict):
             except IndexError:
                 groups.append([-1, 2])
                 continue
-            fid = _name_id(it["filename"])
+            fid = pid(it["filename"])
             if case["cls"] == "calgary":
                 g = [fid, it["slice_no"], _cc_id(it["kspace"])]
             else:
@@ -877,7 +928,7 @@ def correspondence(ctx: Ctx):
     # ---- the dataset classes end to end: file selection -> parse -> items
     W = world()
     for t in range(ctx.budget(150, 2000)):
-        case = _gen_dataset_case(rng, W)
+        case = _gen_dataset_case(rng, W, spellings=True)
         yield {"line": pline("dataset", *case["groups"]), "impl": impl_dataset(case), "nontrivial": case["nontrivial"],
                "bucket": case["bucket"]}
     for t in range(ctx.budget(60, 600)):
